@@ -58,8 +58,8 @@ class SoftmaxLikelihood(Likelihood):
     def forward(self, function_samples: Tensor, *params: Any, **kwargs: Any) -> Categorical:
         num_data, num_features = function_samples.shape[-2:]
 
-        # Catch legacy mode
-        if num_data == self.num_features:
+        # Catch legacy mode (only when the documented num_data x num_features layout does not fit)
+        if num_data == self.num_features and num_features != self.num_features:
             warnings.warn(
                 "The input to SoftmaxLikelihood should be a MultitaskMultivariateNormal (num_data x num_tasks). "
                 "Batch MultivariateNormal inputs (num_tasks x num_data) will be deprectated.",
